@@ -151,7 +151,17 @@ def run_ensemble(rng, obs):
         fopt = out[1]
     else:
         s = {'lattice': LatticeSolver, 'buckshot': BuckshotSolver, 'sparsity': SparsitySolver}[which](dim, n)
-        if inner is not None: s.SetNestedSolver(inner)
+        if inner_name in ('nm', 'powell') and api == 'class_solve' and rng.random() < 0.3:
+            # the nested solver as an INSTANCE that an earlier ensemble (another cost, other ranges) has used before: this ensemble's report
+            # is about THIS cost all the same
+            inst = inner(dim)
+            other = K.make_cost(['sphere', [7.0] * dim])
+            e0 = LatticeSolver(dim, 2); e0.SetNestedSolver(inst)
+            e0.SetStrictRanges([v + 20.0 for v in box['lo']], [v + 20.0 for v in box['hi']]); e0.SetEvaluationLimits(3, None)
+            e0.Solve(lambda x: other([float(v) for v in x]), disp=0)
+            s.SetNestedSolver(inst)
+            obs.desc['nested_instance_reused'] = True; obs.event('nested_instance_reused')
+        elif inner is not None: s.SetNestedSolver(inner)
         s.SetStrictRanges(box['lo'], box['hi'])
         s.SetEvaluationLimits(maxiter, maxfun)
         s.SetTermination(mt.NormalizedChangeOverGeneration(1e-8, 10))
@@ -166,6 +176,9 @@ def run_ensemble(rng, obs):
                 obs.event('ensemble_step_boundaries')
                 if s.Terminated(): break
             s.Finalize()
+        if obs.desc.get('nested_instance_reused'):
+            obs.check(probe.n > 0 and math.isfinite(float(s.bestEnergy)), 'c01:ensemble xopt is a point where the cost was actually called', wrapper=which, api=api, nested=inner_name,
+                      where='reused nested instance', xopt=[float(v) for v in np.atleast_1d(s.bestSolution)], fopt=float(s.bestEnergy), real_cost_calls=probe.n)
         judge('final', s.bestSolution, s.bestEnergy)
         judge('Solution()', s.Solution(), s.bestEnergy)
         fopt = s.bestEnergy
